@@ -18,7 +18,8 @@ RULE = ("type trees (depth <=3 quick / <=5 thorough) of List(item; brackets [] o
         "absent optionals, empty nullable items; a final delimiter is emitted sometimes when allowed and sometimes when not "
         "(then ParsingError is expected); rendering with generated blanks, newlines, comments and multi-line comments; the last "
         "field optionally at the end of 1-3 levels of ordinary productions, productions declared top-down / bottom-up / shuffled. "
-        "Non-trivial = depth >=2 or a non-default option or a container of length >=3; distinct by (schema, data).")
+        "Non-trivial = depth >=2 or a non-default option or a container of length >=3; distinct by (schema, data)."
+        " Also: texts given as str / list / tuple / iterator / generator / file object / dict keys view; a fragment parse with a start-symbol override before the examined parse.")
 ASSUMPTIONS = [
     "documented preconditions respected: final delimiter needs brackets+delimiter, optional needs brackets, delimiter-less lists need non-nullable items",
     "uniquely decodable by construction: bracket-less lists only as a whole field (in front of ';') and never directly nested; a list of nullable items that ends with an empty item is rendered with the final delimiter when that is allowed; a lone empty item is never rendered between brackets",
